@@ -21,7 +21,7 @@ checks = {
    technique="deterministic simulation of server and clients over simulated TCP, swarm over server configurations"),
  "C08": dict(level="fault_enumeration", design="4/C08",
    text="The real authenticateTransport runs at the honest ends over simulated sessions whose exporter gives both ends of one session the same keying material and different sessions different material. Scenarios: honest pairs with equal / different / empty / prefix codes; every single-bit flip and every truncation of either 50-byte authentication message (the 900 alterations are walked systematically by run index); an attacker without the code relaying, replaying proofs captured from an earlier session, or reflecting between two sessions; rogue dialers and listeners that follow the protocol with a drawn code (the right one as positive control), replay, reflect, swap roles, send random proofs or stay silent; all under seeded segmentation and schedules. Oracle: an honest end accepts iff its peer is the other honest end of the same session holding the same code and the message it received is unaltered; every honest end returns within its 10 s timeout.",
-   note="The TLS exporter is a stub (real exporter values and real QUIC sessions are not exercised by this check), HMAC-SHA256 is trusted. The clause 'no manifest or file byte before authentication' is NOT decided: runICEQUICTransfer, runTransfer and acceptExtraConns cannot run in the simulator, and in the harness the order is the harness's own.",
+   note="In the T1 part the TLS exporter is a stub; a T2 part (C08T2) runs honest, wrong-code, TLS-terminating relay and reflection scenarios on real QUIC/TLS sessions with the real exporter, HMAC-SHA256 is trusted. The clause 'no manifest or file byte before authentication' is NOT decided: runICEQUICTransfer, runTransfer and acceptExtraConns cannot run in the simulator, and in the harness the order is the harness's own.",
    technique="deterministic simulation with scripted attackers; enumeration of all single-bit and truncation alterations of the authentication messages"),
  "C12": dict(level="exploration", design="4/C12",
    text="The real SnapshotSender admission code (handleEnvelope, handlePeerJoined, handleManifestAccept, handlePeerLeft, maybeStartTransfers, runTransfer, cleanup) is driven by seeded event scripts over 1-5 receivers (join, repeated accept, leave, rejoin, transfer success/failure, cleanup ticks, clock jump past the TTL) for max-receivers 1-3, with a simulated transfer function, under seeded schedules over the generated yield points. In half of the runs the event loop is starved so that every event meets a quiet sender and the queue and the set of running transfers are compared with a sequential reference admission model after every event; in the other half events overlap with the aftermath of earlier ones and interleaving-robust invariants are judged: never more than max-receivers live transfers, no receiver both queued and holding a slot or queued with a final status, no never-departed receiver started with a cancelled context, and in the final quiet state no idle slot while the queue is non-empty and active map = running transfers.",
